@@ -7,18 +7,26 @@
 (* (4 + n/32) units on variances (values are integers 0..7).                   *)
 EXTENDS Trackers, Json, IOUtils, TLC, FiniteSets
 Rec == ndJsonDeserialize(IOEnv.TRACE)
-VARIABLES l, t, p, mlast, mp, mC
-vars == <<l, t, p, mlast, mp, mC>>
+VARIABLES l, t, p, mlast, mp, mC,
+          ms      \* representation slack of the chain's means: ulp of its location in units of 2^-12 (0 near the origin)
+vars == <<l, t, p, mlast, mp, mC, ms>>
 
-Init == l = 1 /\ t = NewTracker(0, <<>>) /\ p = -1 /\ mlast = <<>> /\ mp = 0 /\ mC = 0
+Init == l = 1 /\ t = NewTracker(0, <<>>) /\ p = -1 /\ mlast = <<>> /\ mp = 0 /\ mC = 0 /\ ms = 0
 
 Abs(x) == IF x < 0 THEN -x ELSE x
-MeanOk(tr, k, m) == Abs(m * tr.n - MeanNum(tr, k) * 4096) <= (2 + tr.n \div 256) * tr.n
-VarOk(tr, k, v) == Abs(v - Fx12(VarNum(tr, k), tr.n * (tr.n - 1))) <= 4 + tr.n \div 32
+\* A chain that lives at location `off` is traced RELATIVE to off (mean and variance are shift-equivariant / invariant);
+\* its f32 running mean cannot be better than the spacing of f32 numbers at off, accumulated over the updates: ms units
+\* per (2 + n/2): an increment delta/n below half a spacing is lost entirely, so a chain that stands
+\* still for long stretches can be off by up to n/2 spacings (true of any f32 running mean).
+MeanOk(tr, k, m) == Abs(m * tr.n - MeanNum(tr, k) * 4096) <= (2 + tr.n \div 256 + ms * (2 + tr.n \div 2)) * tr.n
+\* (the deviations x - mean inherit the error of the mean: at location 4000 (ms = 1) the budget is about 0.1 absolute,
+\* 2-3 % of a typical variance here; the one-pass formula E[x^2] - mean^2 is off by 1 and more there -- for a chain that
+\* does not move at all it reports variance 1.25 -- and is rejected)
+VarOk(tr, k, v) == Abs(v - Fx12(VarNum(tr, k), tr.n * (tr.n - 1))) <= (1 + ms) * (4 + tr.n \div 32) + 400 * ms
 
 New ==
   /\ l <= Len(Rec) /\ Rec[l].e = "new"
-  /\ t' = NewTracker(Rec[l].P, Rec[l].x0) /\ p' = -1
+  /\ t' = NewTracker(Rec[l].P, Rec[l].x0) /\ p' = -1 /\ ms' = Rec[l].mslack
   /\ UNCHANGED <<mlast, mp, mC>> /\ l' = l + 1
 
 Upd ==
@@ -32,13 +40,13 @@ Upd ==
         \* first report: the initial value of the average is not fixed by the property
         /\ p >= 0 => EmaStepOk(p, e.p, Moved(t, e.x))
         /\ t' = t2 /\ p' = e.p
-  /\ UNCHANGED <<mlast, mp, mC>> /\ l' = l + 1
+  /\ UNCHANGED <<mlast, mp, mC, ms>> /\ l' = l + 1
 
 MNew ==
   /\ l <= Len(Rec) /\ Rec[l].e = "mnew"
   /\ mC' = Rec[l].C /\ mp' = 0
   /\ mlast' = [c \in 1..Rec[l].C |-> [k \in 1..Rec[l].P |-> 0]]
-  /\ UNCHANGED <<t, p>> /\ l' = l + 1
+  /\ UNCHANGED <<t, p, ms>> /\ l' = l + 1
 
 MUpd ==
   /\ l <= Len(Rec) /\ Rec[l].e = "mupd"
@@ -48,7 +56,7 @@ MUpd ==
         /\ e.p >= 0 /\ e.p <= 32768
         /\ EmaFoldOk(mp, e.p, mC, k)
         /\ mlast' = e.rows /\ mp' = e.p
-  /\ UNCHANGED <<t, p, mC>> /\ l' = l + 1
+  /\ UNCHANGED <<t, p, mC, ms>> /\ l' = l + 1
 
 Next == New \/ Upd \/ MNew \/ MUpd
 Spec == Init /\ [][Next]_vars
